@@ -134,7 +134,13 @@ class TLSSession(Session):
         self._post_connect()
 
     def _transport_read(self):
-        return self._socket.recv(BUF_SIZE)
+        data = self._socket.recv(BUF_SIZE)
+        # What is left of a TLS record that has already been decrypted sits
+        # inside the SSL object and does not make the socket readable again,
+        # so select() would not report it: take it now
+        while data and self._socket.pending():
+            data += self._socket.recv(BUF_SIZE)
+        return data
 
     def _transport_write(self, data):
         return self._socket.send(data)
